@@ -19,11 +19,22 @@ def odd_variants(rng, c, k):
         m = copy.deepcopy(c)
         m.name = '%s_odd%d' % (c.name, i)
         proper = [n for n in m.nodes if n.kind in ('state', 'parallel', 'final')]
-        kind = rng.choice(['multi', 'foreign_initial', 'hist_outside', 'hist_nodefault', 'deep_initial'])
+        kind = rng.choice(['multi', 'multi3', 'multi3', 'foreign_initial', 'hist_outside', 'hist_nodefault', 'deep_initial'])
         try:
             if kind == 'multi':
                 ts = [t for t in m.trans if t.src.kind not in ('history', 'initial') and t.targets]
                 t = rng.choice(ts); t.targets = t.targets + [rng.choice(proper)]
+            elif kind == 'multi3':
+                # three or more targets: two siblings below a compound state, separated by a relative (ancestor or
+                # descendant) of the first one -- the pairwise legality check has to look past related pairs
+                cs = [n for n in proper if n.kind == 'state' and len([x for x in n.children if x.kind in ('state', 'parallel', 'final')]) >= 2]
+                a = rng.choice(cs); kids = [x for x in a.children if x.kind in ('state', 'parallel', 'final')]
+                a1, a2 = rng.sample(kids, 2)
+                rel = [a] + [p for p in a.ancestors() if p.kind in ('state', 'parallel')] + [d for d in a1.descendants() if d.kind in ('state', 'parallel', 'final')]
+                mid = rng.sample(rel, min(len(rel), rng.choice([1, 1, 2])))
+                ts = [t for t in m.trans if t.src.kind not in ('history', 'initial')]
+                t = rng.choice(ts); t.targets = [a1] + mid + [a2]
+                if rng.random() < 0.3: t.targets.append(rng.choice(proper))
             elif kind == 'foreign_initial':
                 cs = [n for n in m.nodes if n.is_compound() and n.kind == 'state' and not any(x.kind == 'initial' for x in n.children)]
                 n = rng.choice(cs); n.initial_attr = [rng.choice([p for p in proper if p is not n and n not in p.ancestors()])]
@@ -54,7 +65,7 @@ def run(tier, seed):
     docs = []
     for c in bases:
         docs.append(c)
-        docs += odd_variants(rng, c, 4)
+        docs += odd_variants(rng, c, 6)
     docs = [c for c in docs if not stepcheck.excluded_by_finding(c, ('C02', 'C19'))]
     stats = {'validated': 0, 'rejected': 0, 'crashed_or_failed': 0}
 
